@@ -3,6 +3,7 @@ package core
 import (
 	"errors"
 	"fmt"
+	"sort"
 	"strings"
 
 	schema "github.com/jsightapi/jsight-schema-core"
@@ -259,8 +260,15 @@ func (*JApiCore) getPropertiesNames(m map[string]ischema.Node) string {
 		return ""
 	}
 
-	buf := strings.Builder{}
+	// Sorted: the message must not depend on the iteration order of the map.
+	names := make([]string, 0, len(m))
 	for k := range m {
+		names = append(names, k)
+	}
+	sort.Strings(names)
+
+	buf := strings.Builder{}
+	for _, k := range names {
 		buf.WriteString(k)
 		buf.WriteString(", ")
 	}
